@@ -402,6 +402,21 @@ def rule_driver_loops(ctx):
                         rb = reachable_with_const_bools(b, tb, avoid={sw.bb})
                         if (head not in rb or s.bb not in rb) and any(x not in blocks for x in rb):
                             exits_ok = True
+            if not exits_ok:
+                # the state is interpreted by a method of the module that is handed the computer and answers with a step of its own
+                # (`match check.decide(&computer) { Step::Exhausted => return .., .. }`): not followed
+                interp = []
+                for cs3 in b.calls():
+                    if cs3.bb not in blocks:
+                        continue
+                    t3 = prog.body_for_callee(callee_of(cs3), b) if callee_of(cs3) else None
+                    if t3 is None or t3.kind == "closure" or t3.impl is None or (t3.impl.get("self_adt") or "").endswith("MaximalExtensionComputer"):
+                        continue
+                    if any("MaximalExtensionComputer<" in t3.local_ty(i) for i in range(1, t3.n_args + 1)) and any(callee_matches(callee_of(z), r"MaximalExtensionComputer::state$") for z in t3.calls()):
+                        interp.append(t3)
+                if interp:
+                    r.ok(b.id + "|exit", "NOT decided: the computer's state is interpreted by %s, which answers with a step of its own" % interp[0].path.rsplit("::", 1)[-1], s.loc())
+                    continue
             r.check(exits_ok, b.id + "|exit", "no-exit-on-none", "the loop leaves when the computer reports None / Maximal", "the driving loop has no exit on the computer's terminal state", s.loc())
     r.floor(n, 4, "loops driving a MaximalExtensionComputer")
     # CO / ST: a query never starts further queries per listed argument (each would make its own SAT calls)
